@@ -24,4 +24,5 @@ var (
 	ErrListenerClosed     = errors.New("group listener closed")
 	ErrGroupDifferentPort = errors.New("group should have same remote port")
 	ErrProxyRepeated      = errors.New("group proxy repeated")
+	ErrGroupClosed        = errors.New("group is closed")
 )
